@@ -20,6 +20,8 @@ FEATURE_NAME_POOLS = [
     ["1", "2", "3", "4"],
     ["feat a", "feat-b", "FEAT_C", "féat.d"],
     ["0.5", "1e3", "nan", "True"],
+    [" memory", "praxis ", "  gait speed", "mood  "],      # blanks kept from a spreadsheet header: a name is its exact string
+    [0, 1, 2, 3],                                            # integer column labels
 ]
 INSTANCE_NAMES = [None, None, "my_model", "Logistic", "study-42 ☂", "model v2", "LINEAR"]
 
